@@ -57,6 +57,10 @@ func main() {
 	hold := fl.Bool("hold", false, "keep and re-read every slice the database returns (C14)")
 	huge := fl.Bool("huge", false, "sizes: include the 512 MiB limit (needs ~3 GB of memory and disk)")
 	golden := fl.String("golden", "/verif/golden", "golden corpus directory")
+	probe := fl.Bool("probe", false, "Count+Get probes after every write instead of a full read-back")
+	grow := fl.Bool("grow", false, "stress: workers insert new keys (index growth during compaction and scans)")
+	sessions := fl.Bool("sessions", false, "restart-centred patterns (compaction-only sessions, equal-count sessions, bursts after reopen)")
+	compactHeavy := fl.Bool("compactheavy", false, "fill several segments with live and dead records, then compact (promotions overflow the current segment)")
 	in := fl.String("in", "", "program file (ndjson) to replay instead of random programs")
 	fl.Parse(os.Args[2:])
 	t0 := time.Now()
@@ -92,13 +96,18 @@ func main() {
 				cfg.Strict = *strict
 				p = h.GenProgram(rng, fmt.Sprintf("%s-%d-%d", *mode, *seed, i), cfg, h.GenOpts{
 					Keys: keys, Ops: *nops, BigVals: true, Compact: true, Reopen: !*noReopen, Sync: true, Reads: true,
-					CrashAt: *epochs, Close: !*noReopen && rng.Intn(2) == 0, Inject: *inject, Backup: *backup, Scans: *scans, Open2: *open2})
+					CrashAt: *epochs, Close: !*noReopen && rng.Intn(2) == 0, Inject: *inject, Backup: *backup, Scans: *scans, Open2: *open2,
+					Sessions: *sessions, CompactHeavy: *compactHeavy})
 			}
 			rs := *seed + int64(i)
 			if *rseed != 0 {
 				rs = *rseed
 			}
-			r := h.NewRunner(rec, p, h.RunParams{Mode: *mode, Seed: rs, Depth: *depth, Twice: *twice, PLimit: *plimit, OnlyClosed: *onlyClosed})
+			r := h.NewRunner(rec, p, h.RunParams{Mode: *mode, Seed: rs, Depth: *depth, Twice: *twice, PLimit: *plimit, OnlyClosed: *onlyClosed,
+				Probe: *probe, FullEvery: 40})
+			if *mode == "seq" {
+				defer r.CloseAndDecode()
+			}
 			if err := r.Run(p); err != nil {
 				rec.Emit(h.Ev{"e": "note", "what": "run ended: " + err.Error()})
 				tot["ended_early"]++
@@ -137,7 +146,8 @@ func main() {
 			var keys []string
 			bits := uint(1 + rng.Intn(3))
 			per := *nkeys / 2
-			keys = append(keys, ks.InClass(bits, uint32(rng.Intn(8)), per)...)
+			class1 := uint32(rng.Intn(8))
+			keys = append(keys, ks.InClass(bits, class1, per)...)
 			keys = append(keys, ks.InClass(bits+1, uint32(rng.Intn(16)), *nkeys-per)...)
 			for _, g := range coll[:2+rng.Intn(3)] {
 				keys = append(keys, g...)
@@ -146,7 +156,14 @@ func main() {
 			cfg.FS = *fsname
 			cfg.Strict = *strict
 			cfg.MaxSeg = []uint32{2048, 8192, 65536}[rng.Intn(3)]
-			p := h.GenProgram(rng, fmt.Sprintf("seq-%s-%d-%d", *fsname, *seed, i), cfg, h.GenOpts{
+			if *backup {
+				cfg.MaxSeg = []uint32{1024, 2048, 4096}[rng.Intn(3)]
+			}
+			var freshPool []string
+			if *sessions {
+				freshPool = ks.InClass(bits, class1, 600)
+			}
+			p := h.GenProgram(rng, fmt.Sprintf("seq-%s-%d-%d", *fsname, *seed, i), cfg, h.GenOpts{Fresh: freshPool, Sessions: *sessions,
 				Keys: keys, Ops: *nops, BigVals: rng.Intn(3) == 0, Compact: true, Reopen: true, Sync: true, Reads: true, Close: false, Churn: true,
 				Inject: *inject, Backup: *backup, Scans: *scans, MoreReopen: *alt, Open2: *open2, AfterCompact: *afterCompact})
 			if *afterCompact && i%3 == 2 {
@@ -196,7 +213,13 @@ func main() {
 				Dir:     fmt.Sprintf("%s/st-%d-%d-%d", *dir, os.Getpid(), *seed, i),
 				Workers: 2 + rng.Intn(*workers-1), OpsEach: *nops, Keys: ks.InClass(1, uint32(i), *nkeys),
 				Maint: *maint, CloseMid: *closeMid && rng.Intn(2) == 0, BG: *bg && rng.Intn(2) == 0, Prefill: rng.Intn(2 * *nkeys),
-				Seed: *seed*7 + int64(i), MaxSeg: []uint32{1024, 4096, 1 << 20}[rng.Intn(3)]}
+				Seed: *seed*7 + int64(i), MaxSeg: []uint32{1024, 4096, 1 << 20}[rng.Intn(3)], Grow: *grow}
+			if *grow {
+				// enough keys of one hash class that buckets overflow and split while the history runs
+				o.Keys = ks.InClass(2, uint32(i), *nkeys)
+				o.Prefill = *nkeys / 2
+				o.MaxSeg = 2048
+			}
 			if *fsname == "crashfs" {
 				o.Root = crashfs.New()
 				o.Dir = "db"
